@@ -199,9 +199,12 @@ class Ctx:
         self.tlc_runs.append({"module": module, "cfg": os.path.basename(cfgp), "distinct": r.distinct, "generated": r.generated,
                               "depth": r.depth, "complete": r.complete, "wall_s": round(r.wall, 1), "rc": rc,
                               **({"note": note} if note else {}), **({"simulate": simulate} if simulate else {})})
+        if coverage:
+            cov = r.coverage()
+            self.tlc_runs[-1]["actions_fired"] = {k: v[1] for k, v in sorted(cov.items())}
         return r
 
-    def design(self, module, cfg=None, prop=None, expect_violation=None, **kw):
+    def design(self, module, cfg=None, prop=None, expect_violation=None, allow_untaken=(), **kw):
         kw.setdefault("deadlock_off", False)
         """Leg D: run TLC on a design spec.  A violated invariant of the *design* on the unchanged
         specification is a defect in the design model; it is reported as VIOLATION (the spec is part
@@ -214,6 +217,11 @@ class Ctx:
             if r.violated != expect_violation:
                 self.undecided.append("self-test: %s/%s expected violation of %s, got %s" % (module, cfg, expect_violation, r.violated))
             return r
+        if kw.get("coverage") and r.complete:
+            # vacuity guard (TLC -coverage: distinct:generated per action): a named action that never fired means the properties were not exercised by it
+            never = sorted(k for k, v in r.coverage().items() if v[1] == 0 and k not in allow_untaken and k not in ("Init",))
+            if never:
+                self.drift.append("vacuity: actions never taken in %s/%s: %s" % (module, cfg, ", ".join(never)))
         if r.violated:
             path = os.path.join(self.replays, "design-%s-%s.txt" % (os.path.basename(module), os.path.basename(cfg or "default")))
             open(path, "w").write(r.out)
